@@ -100,6 +100,10 @@ class System(ListeningSystem):
             'DR_GFR3': Derotator('GFR3'),
             'DR_PFP': Derotator('PFP'),
         }
+        # Per-instance copy of the table: `setup_import` fills it in place
+        self.configurations = {
+            name: dict(conf) for name, conf in self.configurations.items()
+        }
         setup_import(
             list(self.servos.keys()) + ['GREGORIAN_CAP'],
             self.configurations
@@ -213,7 +217,9 @@ class System(ListeningSystem):
             _change_atomic_value(servo.operative_mode, 0)
             # We should check the result of the next call but we ignore it and
             # assume setup positions are never out of range
-            servo.set_coords(coordinates, 10, apply_offsets=False)
+            # `set_coords` writes into the list it is given: pass a copy, or
+            # the '*' cells of the table are lost after the first SETUP
+            servo.set_coords(list(coordinates), 10, apply_offsets=False)
         gregorian_cap_position = configuration['GREGORIAN_CAP'][0]
         if (gregorian_cap_position
                 and self.gregorian_cap.value != gregorian_cap_position):
